@@ -24,7 +24,7 @@ LEVEL_TEXT = {
     "C01": "Theorem C01_roundtrip: for EVERY encoder state (any history), every decoder state (any history, even a stale reassembly on the same endpoint), every non-empty batch of well-formed packets (payload 1..65535 bytes that passes its type's validator, message type and payload type byte non-zero, one version >= 1, flags without error-in-payload) and every configuration with 25 <= max, min <= max, decoding the serialised frames in order returns exactly the sent packets (type, bytes, message type, timestamp, interface/vendor id by message type, version, non-segmentation flags, tagged with the encoder's ids) and leaves nothing pending. Proof: parse-after-serialise lemmas for frames, the encoder's fold invariant (pieces), the reassembly theorems of C05, counters from C09/C10; unbounded. Tied to the code by round trips through the real encoder and decoder; the predicate P_C01 of the theorem is evaluated by the Lean driver on the packets the real decoder returned.",
     "C11": "Generic theorems get_set_same / get_set_other / set_frame / set_set_comm / set_set_same / set_get_id over `setField`/`getField` (a field = bit range in a big-endian word), for every buffer, every in-range value and ANY disjoint bit range (table field, flag or reserved bits), instantiated for all 16 class tables by kernel-checked table facts (tables_wf, tables_words_ok, tables_alias_overlap) into C11_all_classes; masks_ok ties the library's private mask constants (regenerated from /repo's headers on every run) to the table's bit ranges. Tied to the setters/getters by the `fld` correspondence (every class, every field, all in-range values up to 8/16 bits, zero/ones/random backgrounds, chains) and the table predicate evaluated on the implementation's raw bytes and getters.",
     "C12": "The model's tables ARE the protocol layout (written from the standard, vlib/layout.py -> Layout.lean); theorems get_is_be / set_is_be say reads and writes are the big-endian value at the table's offset/width/bit position; defaults_ok: default objects are zero apart from the protocol defaults (so reserved bits are zero) and C11_all_classes keeps reserved bits untouched; GenChecks sizes_ok / offsets_ok / masks_ok / enums_ok are `decide` obligations over constants regenerated from /repo's headers on every run (sizeof, offsetof of every member, masks, enum values): a moved member, changed width or mask breaks the build. Behavioural tie: `fld` correspondence in both directions (API write -> raw bytes; hand-laid-out bytes -> getters).",
-    "C07": "Theorems C07_frames_wf / C07_C08_bytes / tile_bytes / frame_length / C07_empty: for every encoder state, every batch (payloads 0..65535 bytes) and every configuration with 25 <= max, min <= max, an independent byte-level tiler succeeds on every serialised frame and the decidable predicate P_C07 holds (min <= len <= max, >= 1 message, declared lengths tile the frame, zero padding only up to min, every payload byte exactly once and in order, no frames for an empty batch). Fold invariant over the batch, no bound on sizes. The same P_C07 is evaluated by the Lean driver on the frames the real encoder produced for every generated case.",
+    "C07": "Theorems C07_frames_wf / C07_C08_bytes / tile_bytes / frame_length / C07_empty: for every encoder state, every batch (payloads 0..65535 bytes) and every configuration with 25 <= max, min <= max, an independent byte-level tiler succeeds on every serialised frame and the decidable predicate P_C07 holds (min <= len <= max, >= 1 message, declared lengths tile the frame, zero padding only up to min, every payload byte exactly once and in order, no frames for an empty batch). Fold invariant over the batch, no bound on sizes. REFINEMENT (C07b.encodeLL_refines): a second, low-level model that transcribes src/encoder.cpp line by line (byte vectors allocated at max from the template, bytesLeft, header and payload copies at offset size - bytesLeft, resize on close, the while loop) is proved to return exactly the serialisation of the structured model, for every encoder state, batch and valid configuration - so all encoder theorems (C01, C06b, C07-C10) hold of the low-level model, offsets and copy positions included; a third of the generated encode calls are answered by the low-level model on the driver side. The same P_C07 is evaluated by the Lean driver on the frames the real encoder produced for every generated case.",
     "C08": "Theorem C08_seg_rules (+ C07_C08_bytes on bytes): P_C08 holds for every batch of payloads of 1..65535 bytes and every valid configuration: split iff 16+len exceeds an empty frame, flags first/intermediary*/last, every non-last segment full, a segment alone in its frame, message type of every message = frame header's, batch order, and greedy fill (an unsegmented message starts a new frame of the same type only if it did not fit). P_C08 is also evaluated on the real encoder's frames.",
     "C05": "Theorems reassemble_single / reassemble_many / C05_interleaved on the decoder's reassembly automaton: for any prior state, any number of segments of any sizes (0 allowed), counters mod 65536 incl. the wrap, the message is delivered exactly once at its last frame with the first segment's header, version and type and the concatenated declared bytes (total <= 65535); lifted to any interleaving with arbitrary traffic of other endpoints by the non-interference theorem run_filter. On bytes: segFrame_parse (a segment frame laid out from the protocol table with ANY trailing bytes parses to exactly header + declared bytes) and C05_bytes_single (frames on the wire, consecutive counters from any start incl. the wrap, any trailing bytes, any decoder state: nothing before the last frame, then exactly one packet with create(type, concatenated declared bytes) and the first segment's fields). Tied to the code by feeding table-built interleavings to the real decoder and comparing every call's output; the predicate (expected packet per last segment, nothing before) is evaluated on the implementation's output.",
     "C06": "Theorems fault_safe / C06_no_corruption(_interleaved): whatever sub-multiset and order of the sent frames arrives (drop, duplicate, reorder are one quantifier) and whichever segment copies carry a wrong version/type (side condition: different segments of one message are not corrupted to the same wrong pair - without it the statement is false of any decoder), every delivered packet is one that was sent; fault_recovery / fault_recovery_unseg: from ANY state, a message arriving complete, in order, uninterrupted is delivered. Invariant proof over the arrived list, stream length < 65536. END TO END on bytes (C06b.C06_bytes): for EVERY encoder state, batch of well-formed packets and configuration, ANY list of copies of the encoder model's serialised frames (any subset, order, multiplicity; copies of segment frames with any version byte 1..255 and any type byte), decoded from the empty decoder model, yields only packets of the batch - the abstract sent stream is constructed from the encoder's real output. Tied to the code by fault scripts over real encoder output fed to the real decoder.",
@@ -43,15 +43,16 @@ def last_lines(n):
     return lambda case, lines: lines[-n:]
 
 
-reg(Spec("C01", "Encode then decode returns the original packets", ["AsamCmp.Props.C01"], ["AsamCmp.C01.C01_roundtrip"], ["AsamCmp.Props.C01"], gen_enc.gen_c01, batch_predicate=gen_enc.make_batch_pred("C01"),
+reg(Spec("C01", "Encode then decode returns the original packets", ["AsamCmp.Props.C01", "AsamCmp.Props.C07b"], ["AsamCmp.C01.C01_roundtrip", "AsamCmp.C07b.encodeLL_refines"], ["AsamCmp.Props.C01", "AsamCmp.Props.C07b"], gen_enc.gen_c01, batch_predicate=gen_enc.make_batch_pred("C01"),
          view=lambda c, l: l[-3:-1],
          rule="one- and two-packet batches exhaustively over small frame sizes, random batches of 1..12 packets of all payload kinds with lengths at every fit/no-fit boundary; non-trivial = batch contains a segmented packet, a message-type change or a fill-caused frame boundary; distinct by script text"))
-C07_THMS = ["AsamCmp.frame_length", "AsamCmp.C07_empty", "AsamCmp.C07_frames_wf", "AsamCmp.tile_bytes", "AsamCmp.C08_seg_rules", "AsamCmp.C07_C08_bytes"]
-reg(Spec("C07", "Every encoded frame is well-formed and within the size bounds", ["AsamCmp.Props.C07"], C07_THMS, ["AsamCmp.Props.C07"], gen_enc.gen_c07,
+C07_THMS = ["AsamCmp.frame_length", "AsamCmp.C07_empty", "AsamCmp.C07_frames_wf", "AsamCmp.tile_bytes", "AsamCmp.C08_seg_rules", "AsamCmp.C07_C08_bytes",
+            "AsamCmp.C07b.encodeLL_refines", "AsamCmp.C07b.C07_C08_lowlevel"]
+reg(Spec("C07", "Every encoded frame is well-formed and within the size bounds", ["AsamCmp.Props.C07", "AsamCmp.Props.C07b"], C07_THMS, ["AsamCmp.Props.C07", "AsamCmp.Props.C07b"], gen_enc.gen_c07,
          batch_predicate=gen_enc.make_batch_pred("C07"),
          view=lambda c, l: [x for x in l if x.startswith("frames") or x.startswith("CRASH")],
          rule="as C01 plus mixed versions, empty batches and zero-length payloads; view = frame bytes"))
-reg(Spec("C08", "Segmentation and aggregation follow the protocol rules", ["AsamCmp.Props.C07"], C07_THMS, ["AsamCmp.Props.C07"], gen_enc.gen_c07,
+reg(Spec("C08", "Segmentation and aggregation follow the protocol rules", ["AsamCmp.Props.C07", "AsamCmp.Props.C07b"], C07_THMS, ["AsamCmp.Props.C07", "AsamCmp.Props.C07b"], gen_enc.gen_c07,
          batch_predicate=gen_enc.make_batch_pred("C08"),
          view=lambda c, l: [x for x in l if x.startswith("frames") or x.startswith("CRASH")],
          rule="as C07"))
